@@ -56,6 +56,7 @@ PLAN = {}
 
 # what later rounds of seeded changes added to each check (appended to the rule text of the evidence / manifest)
 ADDED = {
+    "C05": "; rule F1 is also judged on the histories with injected write failures (random W1 incl. a writer that answers Ok(0), spy, sockets, the fault DFS); W1 histories also go through write_all and write_vectored",
     "C01": "; the standalone constructors are also given the same full name cut at another place; the last four shards run in a hostile process environment (getenv interposer answers every variable asked for, usual DogStatsD variables set)",
     "C03": "; the last four shards run in a hostile process state (getenv interposer, standard error unwritable: /dev/full); refusal payload shapes (message, typed payload, a cadence error as payload, raw OS error, nested io::Error); one step in six first makes the same builder and drops it unsent (no emit, no handler call)",
     "C04": "; the last four shards run in a hostile process environment (getenv interposer answers every variable asked for, usual DogStatsD variables set): a client adds nothing of its own",
@@ -247,11 +248,6 @@ meta("C07", level="fault_enumeration",
      min_evaluations=50000, must_observe={"underlying_write_attempts": 50000, "enumerated_runs": 20000})
 
 
-@plan("C05")
-def _c05(bindir, tier, seed):
-    return frame_jobs(bindir, "C05", tier, seed, False)
-
-
 @plan("C06")
 def _c06(bindir, tier, seed):
     # C06's statement does not depend on what failed earlier: "flush returned Ok => nothing left" and "dropped => written"
@@ -260,6 +256,16 @@ def _c06(bindir, tier, seed):
     faulty = frame_jobs(bindir, "C06", tier, seed, True)
     for j in faulty:
         j.name = j.name.replace("C06-", "C06-faulty-")
+    return jobs + faulty
+
+
+@plan("C05")
+def _c05(bindir, tier, seed):
+    # the shape of a write (rule F1) is also judged on the histories with injected write failures
+    jobs = frame_jobs(bindir, "C05", tier, seed, False)
+    faulty = [j for j in frame_jobs(bindir, "C05", tier, seed, True) if "fuzz" not in j.name and "delegatefaults" not in j.name]
+    for j in faulty:
+        j.name = j.name.replace("C05-", "C05-faulty-")
     return jobs + faulty
 
 
